@@ -242,7 +242,7 @@ structure Step where
   env : Env
   emitted : Option Res
   outcome : Outcome
-  deriving Repr
+  deriving DecidableEq, Repr
 
 /-- `fallback name` = what `parse_macro_clang_fallback` yields for the macro: the `i64` bits of
 the integer value clang computes for `(NAME)` at the END of the header (`none`: option off,
